@@ -30,6 +30,8 @@ class Joiner:
         self.descends = descends      # B was computed from a copy of A (loop body from the loop invariant)
         self.roots = roots            # restrict the memory join to these roots (None = all of A)
         self.shared = set()
+        self.int_leaves = []
+        self.collect_leaves = False
         self.jroots = 0
         self.why = []
         self.thresholds = thresholds or []
@@ -160,7 +162,10 @@ class Joiner:
             if a.w != b.w or a.sg != b.sg:
                 self.changed = True
                 return MIX
-            return VInt(self.jlin(a.lin, b.lin, a.w, a.sg), a.w, a.sg)
+            r = self.jlin(a.lin, b.lin, a.w, a.sg)
+            if self.collect_leaves and len(self.int_leaves) < 8:
+                self.int_leaves.append((a.lin, b.lin, r, a.w))
+            return VInt(r, a.w, a.sg)
         if ta is VBool:
             if self.keep and a.e[0] == "sym" and self.ip.tab.origin(a.e[1]) == ("join", self.key):
                 return a
@@ -271,7 +276,9 @@ class Joiner:
             if self.roots is not None and root not in self.roots:
                 continue
             if root in B.mem:
+                self.collect_leaves = (root == ("INV", 0))
                 out.mem[root] = self.jval(va, B.mem[root])
+                self.collect_leaves = False
             elif root[0] == "J":
                 pass
             else:
@@ -376,24 +383,28 @@ class Joiner:
                         if A.prove_ge0(rl - la + c) and B.prove_ge0(rl - lb + c):
                             out.facts.append(rl - Lin.sym(s) + c)
                             break
-            if old is not None:
-                # facts about the symbol that is being replaced carry over if they hold for the new arrival
-                for f in A.facts:
-                    if old in f.syms():
-                        cands = [f]
-                        if f.c < 0:
-                            cands += [f - f.c - c2 for c2 in (1, 0) if -f.c > c2]
-                        for f1 in cands:
-                            g = f1.subst({old: lb})
-                            if self.sigma:
-                                g = g.subst(self.sigma)
-                            if not (self.descends or all((x in self.sigma or self.common(x) or x == old) for x in f1.syms())):
-                                continue
-                            if B.prove_ge0(g):
-                                nf = f1.subst({old: Lin.sym(s)})
-                                if nf not in out.facts:
-                                    out.facts.append(nf)
-                                break
+        # facts about join symbols that are being replaced carry over (all replacements applied at once)
+        # if they hold for the arrival; constants are weakened before a relation is given up
+        repl_b = {old: lb for (s, la, lb, old) in self.news if old is not None}
+        repl_n = {old: Lin.sym(s) for (s, la, lb, old) in self.news if old is not None}
+        if repl_b:
+            for f in A.facts:
+                if not any(x in repl_b for x in f.syms()):
+                    continue
+                cands = [f]
+                if f.c < 0:
+                    cands += [f - f.c - c2 for c2 in (1, 0) if -f.c > c2]
+                for f1 in cands:
+                    g = f1.subst(repl_b)
+                    if self.sigma:
+                        g = g.subst(self.sigma)
+                    if not (self.descends or all((x in self.sigma or self.common(x) or x in repl_b) for x in f1.syms())):
+                        continue
+                    if B.prove_ge0(g):
+                        nf = f1.subst(repl_n)
+                        if nf not in out.facts:
+                            out.facts.append(nf)
+                        break
         # pairwise relations between new symbols: if the sum (difference) of two generalised values is the
         # same expression over common symbols on both sides, the second symbol is *defined* by the first
         n = self.news[:8]
@@ -427,6 +438,38 @@ class Joiner:
                                 if A.prove_ge0(Lin.const(c) - ea) and B.prove_ge0(Lin.const(c) - eb):
                                     out.facts.append(Lin.const(c) - e)
                                     break
+        # three-way sums among the new symbols (Houdini-style candidate  s1 = s2 + s3, kept while inductive)
+        if 3 <= len(n) <= 6:
+            for i in range(len(n)):
+                for j in range(len(n)):
+                    for k in range(j + 1, len(n)):
+                        if i == j or i == k:
+                            continue
+                        (s1, a1, b1, _), (s2, a2, b2, _), (s3, a3, b3, _) = n[i], n[j], n[k]
+                        if s1 in sub or s2 in sub or s3 in sub:
+                            continue
+                        if A.prove_eq0(a1 - a2 - a3) and B.prove_eq0(b1 - b2 - b3):
+                            e = Lin.sym(s1) - Lin.sym(s2) - Lin.sym(s3)
+                            out.facts.append(e)
+                            out.facts.append(-e)
+        # Houdini-style relational templates over the integer fields of a stateful object:
+        # field_i = field_j + field_k is kept as long as both sides of every join entail it
+        L = self.int_leaves
+        for i in range(len(L)):
+            if not L[i][2].t:
+                continue
+            for j in range(len(L)):
+                for k in range(j + 1, len(L)):
+                    if i == j or i == k or L[i][3] < max(L[j][3], L[k][3]):
+                        continue
+                    if not (L[j][2].t or L[k][2].t):
+                        continue
+                    if A.prove_eq0(L[i][0] - L[j][0] - L[k][0]) and B.prove_eq0(L[i][1] - L[j][1] - L[k][1]):
+                        e = L[i][2] - L[j][2] - L[k][2]
+                        if e.t:
+                            for ee in (e, -e):
+                                if ee not in out.facts:
+                                    out.facts.append(ee)
         if sub:
             self.apply_sub(sub)
         self.gc()
